@@ -93,6 +93,10 @@ func (y CheckWhen) check(s *Selection, m meta.Meta) (bool, error) {
 					base = context.Background()
 				}
 				p.Context = context.WithValue(base, whensInProgressKey{}, &whenInProgress{when: w, outer: inProgress})
+				// a condition is about the data, not about what the request selects of it: an operand
+				// that fields, content, depth or with-defaults leave out of the answer is there all the
+				// same. (The operand's own condition still counts)
+				p.Constraints = p.Constraints.only(CheckWhen{})
 			}
 			if proceed, err := eval.XPredicate(xp); !proceed || err != nil {
 				return false, err
